@@ -15,6 +15,18 @@ pub struct Case {
     /// textual order: "fwd" | "rev"
     pub order: String,
     pub ts: bool,
+    /// "" (type names as written: Ty0, Ty-15) | "upper" (type references without lower-case letters: TY0, TY-15 —
+    /// lexically also object class references)
+    #[serde(default)]
+    pub names: String,
+}
+
+fn spell(c: &Case, text: &str) -> String {
+    if c.names == "upper" {
+        text.replace("Ty", "TY")
+    } else {
+        text.to_string()
+    }
 }
 
 pub struct Def {
@@ -24,7 +36,7 @@ pub struct Def {
     pub is_value: bool,
 }
 
-pub const DEFS: [Def; 16] = [
+pub const DEFS: [Def; 17] = [
     Def { name: "Ty0", text: "Ty0 ::= INTEGER (0..7)", deps: &[], is_value: false },
     Def { name: "Ty1", text: "Ty1 ::= SEQUENCE { a Ty0, b BOOLEAN OPTIONAL }", deps: &[0], is_value: false },
     Def { name: "Ty2", text: "Ty2 ::= CHOICE { x Ty1, y NULL }", deps: &[1], is_value: false },
@@ -41,6 +53,7 @@ pub const DEFS: [Def; 16] = [
     Def { name: "Ty13", text: "Ty13 ::= BIT STRING { f(0), g(2) }", deps: &[], is_value: false },
     Def { name: "val14", text: "val14 Ty13 ::= { f }", deps: &[13], is_value: true },
     Def { name: "Ty-15", text: "Ty-15 ::= OCTET STRING (SIZE (2))", deps: &[], is_value: false },
+    Def { name: "val16", text: "val16 Ty1 ::= { a 3, b TRUE }", deps: &[1], is_value: true },
 ];
 
 pub const TYPE_FAULTS: [&str; 6] = ["REAL", "Videotex", "TIME", "inverted-range", "undefined-ref", "macro"];
@@ -63,17 +76,18 @@ fn fault_text(d: &Def, kind: &str) -> String {
     }
 }
 
-fn rust_name(d: &Def, faulted_as_macro: bool) -> String {
+fn rust_name(c: &Case, d: &Def, faulted_as_macro: bool) -> String {
+    let name = spell(c, d.name);
     if faulted_as_macro {
-        return d.name.to_uppercase().replace('-', "");
+        return name.to_uppercase().replace('-', "");
     }
     if d.is_value {
-        d.name.to_uppercase().replace('-', "_")
+        name.to_uppercase().replace('-', "_")
     } else {
         // documented rule: hyphens removed, following letter upper-cased
         let mut out = String::new();
         let mut up = false;
-        for c in d.name.chars() {
+        for c in name.chars() {
             if c == '-' {
                 up = true;
             } else if up {
@@ -88,6 +102,10 @@ fn rust_name(d: &Def, faulted_as_macro: bool) -> String {
 }
 
 pub fn sources(c: &Case) -> Vec<String> {
+    sources_as_written(c).iter().map(|t| spell(c, t)).collect()
+}
+
+fn sources_as_written(c: &Case) -> Vec<String> {
     let text_of = |i: usize| -> String {
         match c.faults.iter().find(|(j, _)| *j == i) {
             Some((_, k)) => fault_text(&DEFS[i], k),
@@ -115,7 +133,7 @@ pub fn sources(c: &Case) -> Vec<String> {
         let lib: Vec<String> = idx.iter().filter(|i| **i <= 5).map(|i| text_of(*i)).collect();
         let main: Vec<String> = idx.iter().filter(|i| **i > 5).map(|i| text_of(*i)).collect();
         vec![
-            format!("Main DEFINITIONS AUTOMATIC TAGS ::= BEGIN\nIMPORTS Ty0, Ty2, Ty3, Ty4 FROM Lib;\n{}\nEND\n", main.join("\n")),
+            format!("Main DEFINITIONS AUTOMATIC TAGS ::= BEGIN\nIMPORTS Ty0, Ty1, Ty2, Ty3, Ty4 FROM Lib;\n{}\nEND\n", main.join("\n")),
             module("Lib", "EXPLICIT", false, &lib.join("\n")),
         ]
     }
@@ -181,7 +199,7 @@ impl Prop for C10 {
     fn selftest(&self) -> Result<u64, String> {
         for layout in ["one", "two"] {
             for order in ["fwd", "rev"] {
-                let c = Case { faults: vec![], layout: layout.into(), order: order.into(), ts: false };
+                let c = Case { faults: vec![], layout: layout.into(), order: order.into(), ts: false, names: String::new() };
                 let o = compile_rasn(&sources(&c), &Cfg::default());
                 if o.ok_clean().is_none() {
                     return Err(format!("fault-free base ({layout},{order}) does not compile cleanly: {}", o.brief()));
@@ -193,21 +211,22 @@ impl Prop for C10 {
     fn enumerate(&self, tier: Tier, _seed: u64) -> Vec<Case> {
         let mut out = vec![];
         let kinds_for = |i: usize| -> Vec<&'static str> { if DEFS[i].is_value { VALUE_FAULTS.to_vec() } else { TYPE_FAULTS.to_vec() } };
+        for names in ["", "upper"] {
         for layout in ["one", "two"] {
             for order in ["fwd", "rev"] {
                 for ts in [false, true] {
-                    out.push(Case { faults: vec![], layout: layout.into(), order: order.into(), ts });
+                    out.push(Case { faults: vec![], layout: layout.into(), order: order.into(), ts, names: names.into() });
                     for i in 0..DEFS.len() {
                         for k in kinds_for(i) {
-                            out.push(Case { faults: vec![(i, k.into())], layout: layout.into(), order: order.into(), ts });
+                            out.push(Case { faults: vec![(i, k.into())], layout: layout.into(), order: order.into(), ts, names: names.into() });
                         }
                     }
-                    if tier.thorough() && !ts {
+                    if tier.thorough() && !ts && names.is_empty() {
                         for i in 0..DEFS.len() {
                             for j in (i + 1)..DEFS.len() {
                                 for ki in kinds_for(i) {
                                     for kj in kinds_for(j) {
-                                        out.push(Case { faults: vec![(i, ki.into()), (j, kj.into())], layout: layout.into(), order: order.into(), ts });
+                                        out.push(Case { faults: vec![(i, ki.into()), (j, kj.into())], layout: layout.into(), order: order.into(), ts, names: names.into() });
                                     }
                                 }
                             }
@@ -216,16 +235,17 @@ impl Prop for C10 {
                 }
             }
         }
+        }
         // a module consisting only of unsupported definitions next to a healthy one (1..3 definitions of every kind)
         let all_kinds: Vec<(usize, &str)> = TYPE_FAULTS.iter().map(|k| (0usize, *k)).chain(VALUE_FAULTS.iter().map(|k| (6usize, *k))).collect();
         for ts in [false, true] {
             for a in &all_kinds {
-                out.push(Case { faults: vec![(a.0, a.1.into())], layout: "bad-module".into(), order: "fwd".into(), ts });
+                out.push(Case { faults: vec![(a.0, a.1.into())], layout: "bad-module".into(), order: "fwd".into(), ts, names: String::new() });
                 for b in &all_kinds {
-                    out.push(Case { faults: vec![(a.0, a.1.into()), (b.0, b.1.into())], layout: "bad-module".into(), order: "fwd".into(), ts });
+                    out.push(Case { faults: vec![(a.0, a.1.into()), (b.0, b.1.into())], layout: "bad-module".into(), order: "fwd".into(), ts, names: String::new() });
                     if tier.thorough() {
                         for c3 in &all_kinds {
-                            out.push(Case { faults: vec![(a.0, a.1.into()), (b.0, b.1.into()), (c3.0, c3.1.into())], layout: "bad-module".into(), order: "rev".into(), ts });
+                            out.push(Case { faults: vec![(a.0, a.1.into()), (b.0, b.1.into()), (c3.0, c3.1.into())], layout: "bad-module".into(), order: "rev".into(), ts, names: String::new() });
                         }
                     }
                 }
@@ -256,7 +276,7 @@ impl Prop for C10 {
                 if faulted.contains(&i) || depends_on_fault(i, &faulted) || d.is_value {
                     continue;
                 }
-                let n = d.name.replace('-', "_");
+                let n = spell(c, d.name).replace('-', "_");
                 if !gen.contains(&format!(" {n} ")) && !gen.contains(&format!(" {n}=")) && !gen.contains(&format!(" {n}:")) {
                     discs.push(Disc::new(format!("lost|ts|def={}|faults={}", if d.is_value { "value" } else { "type" }, kinds.join("+")), format!("{n} not declared\n{dump}\n--- generated ---\n{gen}")));
                 }
@@ -272,7 +292,7 @@ impl Prop for C10 {
         // ---- accounting
         let mut anonymous_warnings: i64 = 0;
         for w in &warnings {
-            let named = DEFS.iter().any(|d| w.contains(d.name) || w.contains(&d.name.to_uppercase()));
+            let named = DEFS.iter().any(|d| w.contains(&spell(c, d.name)) || w.contains(&d.name.to_uppercase()));
             if !named {
                 anonymous_warnings += 1;
             }
@@ -283,9 +303,9 @@ impl Prop for C10 {
             // templates): it yields no item, so it has to be the subject of a warning
             let as_macro = c.faults.iter().any(|(j, k)| *j == i && k == "macro");
             let m = p.module(module_of(c, i));
-            let present = !as_macro && m.map_or(false, |m| m.find(&rust_name(d, false)).is_some());
+            let present = !as_macro && m.map_or(false, |m| m.find(&rust_name(c, d, false)).is_some());
             // (a definition replaced by a MACRO carries the macro's all-capital name)
-            let shown_name: String = if as_macro { d.name.to_uppercase() } else { d.name.to_string() };
+            let shown_name: String = if as_macro { d.name.to_uppercase() } else { spell(c, d.name) };
             let named_in_warning = warnings.iter().any(|w| {
                 // the warning names the definition (avoid prefix matches such as Ty1 in Ty11)
                 let mut found = false;
@@ -316,7 +336,7 @@ impl Prop for C10 {
                 let rel = if faulted.contains(i) { "faulted" } else if depends_on_fault(*i, &faulted) { "dependent" } else { "independent" };
                 let fk = if faulted.contains(i) { c.faults.iter().find(|(j, _)| j == i).map(|(_, k)| k.clone()).unwrap_or_default() } else { "-".to_string() };
                 discs.push(Disc::new(
-                    format!("lost|def={}|relation={rel}|own-fault={fk}|warnings={}", if d.is_value { "value" } else { "type" }, if warnings.is_empty() { "none" } else if anonymous_warnings > 0 { "anonymous-fewer-than-losses" } else { "named-others" }),
+                    format!("lost|def={}{}|relation={rel}|own-fault={fk}|warnings={}", if c.names.is_empty() { "" } else { "upper-case-type-names:" }, if d.is_value { "value" } else { "type" }, if warnings.is_empty() { "none" } else if anonymous_warnings > 0 { "anonymous-fewer-than-losses" } else { "named-others" }),
                     format!("definition {} is neither generated nor the subject of a warning ({} unaccounted, {} anonymous warnings)\nwarnings: {warnings:?}\n{dump}\n--- generated ---\n{gen}", d.name, unaccounted.len(), anonymous_warnings),
                 ));
             }
@@ -327,7 +347,7 @@ impl Prop for C10 {
                 if depends_on_fault(i, &faulted) {
                     continue;
                 }
-                let name = rust_name(d, false);
+                let name = rust_name(c, d, false);
                 let a = p.module(module_of(c, i)).and_then(|m| m.find(&name));
                 let b = rp.module(module_of(c, i)).and_then(|m| m.find(&name));
                 if a != b {
